@@ -110,12 +110,18 @@ def gen(run):
         exp = ("pnm", F.expected_ppm_from_bytes(body, pal, 320, 200))
         cases.append(("raw", {"tool": "mge", "data": F.mge_raw_file(pal, body), "expect": exp, "features": ["mge", "raw-form"], "label": f"mge raw {nm}", "choices": []}))
         add_space(run, cases, f"mge {nm}", lambda ch, body=body: F.mge_rle_file(pal, body, ch), exp, ["mge"], d, "mge")
+    # composite-palette MGE: the expected picture is what the same decoder makes of the uncompressed form (differential oracle)
+    body = pics["boundaries"]
+    pal2 = list(reversed(C.palette(29, step=3)))
+    raw_cmp = F.mge_raw_file(pal2, body, rgb_flag=1)
+    add_space(run, cases, "mge boundaries composite-palette", lambda ch, body=body: F.mge_rle_file(pal2, body, ch, rgb_flag=1), ("diff", "mge", raw_cmp), ["mge", "composite-palette"], d, "mge")
     # ---------------- RAT (low nibbles < 8 so that the known `& 7` finding does not mask other defects)
     pics = pictures(199 * 160, 160, lowmask=0x77)
-    for nm in names:
+    for pi, nm in enumerate(names):
         body = pics[nm]
-        exp = ("pnm", F.expected_ppm_from_bytes(body, pal, 320, 199))
-        add_space(run, cases, f"rat {nm}", lambda ch, body=body: F.rat_file(pal, body, ch), exp, ["rat"], d, "rat")
+        palr = C.palette(13 + 11 * pi, step=5 + 2 * pi)
+        exp = ("pnm", F.expected_ppm_from_bytes(body, palr, 320, 199))
+        add_space(run, cases, f"rat {nm}", lambda ch, body=body, palr=palr: F.rat_file(palr, body, ch), exp, ["rat"], d, "rat")
     body = bytes((b | 0x08) if i % 5 == 0 else b for i, b in enumerate(pics["boundaries"]))
     exp = ("pnm", F.expected_ppm_from_bytes(body, pal, 320, 199))
     add_space(run, cases, "rat lownibble>=8", lambda ch, body=body: F.rat_file(pal, body, ch), exp, ["rat", "rat-low-nibble>=8"], 0, "rat")
@@ -141,11 +147,22 @@ def gen(run):
     return cases
 
 
+_REF = {}
+
+
 def judge(case, oc):
     if oc.status != "ok":
         return ("decoder-failed:" + oc.status.split(":")[0], oc.status + " " + oc.detail)
     exp = case["expect"]
     try:
+        if exp[0] == "diff":
+            key = (exp[1], hash(exp[2]))
+            if key not in _REF:
+                ro = T.run_tool(exp[1], exp[2], [], work.scratch)
+                _REF[key] = ro.out if ro.status == "ok" else None
+            if _REF[key] is None:
+                return None  # the uncompressed form itself is not decoded: C16's business
+            exp = ("pnm", _REF[key])
         if exp[0] == "pnm":
             rw, rh, rch, rpay = F.pnm_pixels(exp[1])
             gw, gh, gch, payload = F.pnm_pixels(oc.out)
